@@ -16,6 +16,7 @@ Strings and other opaque Python values travel as dicts with one `$`-key (see har
 -/
 import Lean.Data.Json
 import Jap.Core.Links
+import Jap.Core.LinksTree
 
 open Lean Jap.NS Jap.Links
 
@@ -165,7 +166,49 @@ def resKV (r : Except PErr KV) : Json :=
   | .ok cfg => Json.mkObj [("ok", vToJson (.ns cfg))]
   | .error e => Json.mkObj [("err", .str (perrStr e))]
 
-def step (p : Parser) (j : Json) : Json × Parser :=
+/-- subcommand names as values: the wire form of a Python string -/
+def names : Names :=
+  { nameOf := fun v =>
+      match v with
+      | .dct [(k, .lst cs)] =>
+        if k = strTag && !cs.isEmpty then
+          some ⟨false, String.ofList (cs.map fun c => match c with | .atom a => Char.ofNat a.toNat | _ => '?')⟩
+        else .none
+      | _ => .none
+    nameVal := fun k => .dct [(strTag, .lst (k.name.toList.map fun c => V.atom c.toNat))] }
+
+structure St where
+  p : Parser := default
+  t : PTree := default
+
+partial def treeOfJson (j : Json) : PTree :=
+  let acts := (getArr j "actions").map fun a =>
+    match a with
+    | .arr #[.str d, .str k] => (⟨keyOf d, kindOf k⟩ : Action)
+    | _ => ⟨[], .arg⟩
+  let req := (getArr j "required").map fun r => match r with | .str s => keyOf s | _ => []
+  let grp := match j.getObjVal? "group" with | .ok (.bool b) => b | _ => false
+  let sreq := match j.getObjVal? "subreq" with | .ok (.bool b) => b | _ => false
+  let choices := (getArr j "choices").map fun c =>
+    match c with
+    | .arr #[.str n, t] => ((⟨false, n⟩ : SKey), treeOfJson t)
+    | _ => (⟨false, ""⟩, default)
+  .node { actions := acts, required := req, links := [] } grp ⟨false, getStr j "dest"⟩ sreq choices
+
+partial def nodeAt : PTree → List SKey → Option PTree
+  | t, [] => some t
+  | .node _ _ _ _ choices, s :: rest =>
+    match choices.find? (fun c => c.1 == s) with
+    | some c => nodeAt c.2 rest
+    | none => none
+
+def nodeJson (t : Option PTree) : Json :=
+  match t with
+  | some (.node p g _ _ _) => Json.mkObj [("parser", parserJson p), ("group", .bool g)]
+  | none => .null
+
+def step (st : St) (j : Json) : Json × St :=
+  let p := st.p
   match getStr j "op" with
   | "new" =>
     let acts := (getArr j "actions").map fun a =>
@@ -174,7 +217,7 @@ def step (p : Parser) (j : Json) : Json × Parser :=
       | _ => ⟨[], .arg⟩
     let req := (getArr j "required").map fun r => match r with | .str s => keyOf s | _ => []
     let p' : Parser := { actions := acts, required := req, links := [] }
-    (parserJson p', p')
+    (parserJson p', { st with p := p' })
   | "link" =>
     let srcs := (getArr j "sources").map fun s => match s with | .str s => keyOf s | _ => []
     let co := (getArr j "coerce").map fun b => match b with | .bool b => b | _ => false
@@ -182,33 +225,62 @@ def step (p : Parser) (j : Json) : Json × Parser :=
       | .ok (.num n) => some n.mantissa.toNat
       | _ => none
     match addLink p srcs co (keyOf (getStr j "target")) fn with
-    | .ok p' => (Json.mkObj [("r", "ok"), ("parser", parserJson p')], p')
-    | .error e => (Json.mkObj [("r", "ValueError"), ("why", .str (lerrStr e))], p)
+    | .ok p' => (Json.mkObj [("r", "ok"), ("parser", parserJson p')], { st with p := p' })
+    | .error e => (Json.mkObj [("r", "ValueError"), ("why", .str (lerrStr e))], st)
   | "parse" =>
     let ins := (getArr j "inputs").map fun i =>
       match i with
       | .arr #[.str c, .str k, v] => (⟨chanOf c, keyOf k, (vOfJson v).toOption.getD .none⟩ : Input)
       | _ => ⟨.argv, [], .none⟩
-    (resKV (parse env p ins), p)
-  | "apply" => (resKV (applyParsingLinks env p.links (getKV j "cfg")), p)
-  | "common" => (resKV (parseCommon env p (getKV j "cfg")), p)
-  | "strip" => (Json.mkObj [("s", vToJson (.ns (stripLinkTargetKeys p (getKV j "cfg"))))], p)
-  | "dumpkeys" => (Json.mkObj [("keys", .arr ((dumpKeys p (getKV j "cfg")).map Json.str).toArray)], p)
-  | op => (Json.mkObj [("bad-op", .str op)], p)
+    (resKV (parse env p ins), st)
+  | "apply" => (resKV (applyParsingLinks env p.links (getKV j "cfg")), st)
+  | "common" => (resKV (parseCommon env p (getKV j "cfg")), st)
+  | "strip" => (Json.mkObj [("s", vToJson (.ns (stripLinkTargetKeys p (getKV j "cfg"))))], st)
+  | "dumpkeys" => (Json.mkObj [("keys", .arr ((dumpKeys p (getKV j "cfg")).map Json.str).toArray)], st)
+  -- parser trees
+  | "newtree" =>
+    let t := match j.getObjVal? "tree" with | .ok tj => treeOfJson tj | _ => default
+    (nodeJson (some t), { st with t := t })
+  | "linkat" =>
+    let path := (getArr j "path").map fun s => match s with | .str s => (⟨false, s⟩ : SKey) | _ => ⟨false, ""⟩
+    let srcs := (getArr j "sources").map fun s => match s with | .str s => keyOf s | _ => []
+    let co := (getArr j "coerce").map fun b => match b with | .bool b => b | _ => false
+    let fn := match j.getObjVal? "fn" with
+      | .ok (.num n) => some n.mantissa.toNat
+      | _ => none
+    match addLinkAt st.t path ⟨srcs, co, keyOf (getStr j "target"), fn⟩ with
+    | .ok t' => (Json.mkObj [("r", "ok"), ("node", nodeJson (nodeAt t' path))], { st with t := t' })
+    | .error e =>
+      let t' := markGroupAt st.t path
+      (Json.mkObj [("r", "ValueError"), ("why", .str (lerrStr e)), ("node", nodeJson (nodeAt t' path))], { st with t := t' })
+  | "applytree" =>
+    let off := match j.getObjVal? "off" with | .ok (.bool b) => b | _ => false
+    (resKV (applyTree env names off st.t (getKV j "cfg")), st)
+  | "striptree" =>
+    match stripTree names st.t (getKV j "cfg") with
+    | .ok c => (Json.mkObj [("s", vToJson (.ns c))], st)
+    | .error e => (Json.mkObj [("err", .str (perrStr e))], st)
+  | "parsetree" =>
+    let ins := (getArr j "inputs").map fun i =>
+      match i with
+      | .arr #[.str c, .str k, v] => (⟨chanOf c, keyOf k, (vOfJson v).toOption.getD .none⟩ : Input)
+      | _ => ⟨.argv, [], .none⟩
+    (resKV (parseT env names st.t ins), st)
+  | op => (Json.mkObj [("bad-op", .str op)], st)
 
-partial def loop (h : IO.FS.Stream) (out : IO.FS.Stream) (p : Parser) : IO Unit := do
+partial def loop (h : IO.FS.Stream) (out : IO.FS.Stream) (st : St) : IO Unit := do
   let line ← h.getLine
   if line.isEmpty then return ()
   match Json.parse line with
   | .error e =>
     out.putStrLn (Json.mkObj [("bad-json", .str e)]).compress
-    loop h out p
+    loop h out st
   | .ok j =>
-    let (r, p') := step p j
+    let (r, st') := step st j
     out.putStrLn r.compress
-    loop h out p'
+    loop h out st'
 
 def main : IO Unit := do
   let stdin ← IO.getStdin
   let stdout ← IO.getStdout
-  loop stdin stdout default
+  loop stdin stdout {}
